@@ -694,14 +694,22 @@ pub fn dec_poll_styled<F: Family>(
                         seen_transients = transients.get();
                         transient_not_surfaced = Some("Pending".to_string());
                     }
+
                     if pend.get() == before {
                         spurious = true;
                     }
                     let bit = (drop_mask >> (npend % 64)) & 1;
                     npend += 1;
                     if bit == 1 {
+                        drop(fut);
+                        // rendering the parked state is ordinary use (a log line); for small buffers it is done here so
+                        // that Miri / the sanitizers see it if that ever reads bytes the transport has not delivered
+                        if let GenericPollPacketState::Body(b) = &state {
+                            if b.buf.len() <= 48 {
+                                std::hint::black_box(format!("{:?}", state).len());
+                            }
+                        }
                         if clone_state {
-                            drop(fut);
                             // a Body state owns a buffer as large as the declared remaining length (up to
                             // 256 MiB): the copies of one run are bounded so that a run stays cheap
                             let sz = match &state {
